@@ -15,7 +15,7 @@ from common import req, close, relerr, TOL, run_driver
 import mixgen
 
 META = {
-    'text': 'Theorems (Lean 4, over the reals, all arguments and vector lengths): for 27 of the 29 routine pairs the definition regenerated from dbm_p.py equals the definition regenerated from the Fortran source (literal kinds honoured; coefs, z_pr, fugacity, density through the general loop/matrix mode with the cubic root finder as a parameter), plus kernel-decided signature tables (every dbm_f.<name> call site resolves in both libraries with identical parameter order and arity). The remaining pairs (viscosity, cubic_roots) and all 29 on real code are compared by differential execution of dbm_p against a gfortran build of /repo/tamoc/src called through ctypes, over every regime branch.',
+    'text': 'Theorems (Lean 4, over the reals, all arguments and vector lengths): for 27 of the 29 routine pairs the definition regenerated from dbm_p.py equals the definition regenerated from the Fortran source (Fortran literal kinds honoured: a default-real literal is the rational value of its binary32 rounding; objects not declared double precision, REAL() conversions, integer division and operations carried out in single precision are REFUSED by the translator, so such a routine loses its model and its pair obligation breaks loudly instead of being modelled as double; coefs, z_pr, fugacity, density through the general loop/matrix mode with the cubic root finder as a parameter), plus kernel-decided signature tables (every dbm_f.<name> call site resolves in both libraries with identical parameter order and arity). The remaining pairs (viscosity, cubic_roots) and all 29 on real code are compared by differential execution of dbm_p against a gfortran build of /repo/tamoc/src called through ctypes, over every regime branch.',
     'note': 'Trusted: Lean kernel + 3 standard axioms; translators py2ir/f2ir (validated every run by executing the generated definitions against the Python functions and the compiled Fortran they were generated from); gfortran -O2 as the Fortran semantics; real arithmetic for doubles. Partial: viscosity ((2,1)-array broadcasting outside the translator subset) and cubic_roots (numpy.roots vs PDAS; no proof of the PDAS algorithm) are decided by differential execution only; the pair theorems of z_pr/fugacity/density hold for every root finder, and the two root finders are compared on real code.',
     'technique': 'Lean 4 program-pair equality over two models regenerated from source (Python and Fortran translators) + differential execution through ctypes',
 }
